@@ -127,7 +127,15 @@ func c10ValueProp(t *rapid.T, st *vstats.Collector) {
 			c10Head(b1))
 	}
 	if len(injected) > 0 {
-		c10UnknownPreserved(t, st, m, injected, b0)
+		// m1 was re-encoded above; decode once more for an untouched
+		// copy of what the decoder saw.
+		seenMsg, _, _ := c10Read(t, nil, b0)
+		if !c10UnknownPreserved(t, st, seenMsg, b0, injected, b1) &&
+			!c10RepacksExtension(m) {
+
+			t.Fatalf("%T: injected unknown records did not reach the "+
+				"wire\nb0=%x", m, c10Head(b0))
+		}
 	}
 
 	// The whole fixpoint chain on the valid encoding as well.
